@@ -186,7 +186,10 @@ class Printer:
         if k == "true": return "true"
         if k == "false": return "false"
         if k == "num": return str(n["n"])
-        if k == "str": return '"' + esc(n["s"]) + '"'
+        if k == "str":
+            if self.layout == "alt" and "'" not in n["s"] and "$" not in n["s"] and "\\" not in n["s"] and "\n" not in n["s"]:
+                return "'" + n["s"] + "'"
+            return '"' + esc(n["s"]) + '"'
         if k == "var": return n["s"]
         if k == "self": return "self"
         if k == "un": return n["s"] + self.sub(n["kids"][0], 7)
@@ -208,6 +211,12 @@ class Printer:
             if "\n" in t and "_id" in n:
                 self.line_of[n["_id"]] = self.line_of[n["_id"]] + t.count("\n")
             return t
+        if self.layout == "alt" and k in ("prop", "propset", "propop") and n["kids"][0]["k"] == "self":
+            # @x is the short form of self.x
+            self.mark(n["kids"][0])
+            if k == "prop": return f"@{n['s']}"
+            if k == "propset": return f"@{n['s']} = {self.expr(n['kids'][1])}"
+            return f"@{n['s']} {n['s2']} {self.expr(n['kids'][1])}"
         if k == "prop": return f"{self.callee(n['kids'][0])}.{n['s']}"
         if k == "propset": return f"{self.callee(n['kids'][0])}.{n['s']} = {self.expr(n['kids'][1])}"
         if k == "propop": return f"{self.callee(n['kids'][0])}.{n['s']} {n['s2']} {self.expr(n['kids'][1])}"
@@ -286,12 +295,18 @@ class Printer:
         self.flush_line(text)
         self.nl()
 
-    def block(self, b, header):
+    def block(self, b, header, implicit=False):
         self.mark(b)
         self.flush_line(header + " {")
         self.nl()
         self.ind += 1
-        for st in b["kids"]:
+        for j, st in enumerate(b["kids"]):
+            if implicit and j == len(b["kids"]) - 1 and st["k"] == "return1":
+                # the last expression of a function body, written without `return` and `;`, is its result
+                self.start()
+                self.mark(st)
+                self.line(self.expr(st["kids"][0]))
+                continue
             self.stmt(st)
         self.ind -= 1
         self.start()
@@ -337,7 +352,7 @@ class Printer:
             params = ", ".join(p["s"] + (f": {type_of(p['s'], 1)}" if typed and (p.get("_id", 0) % 4) else "") for p in n["kids"][:-1])
             head = {"fun": "fn ", "method": "", "init": "", "static": "static "}[n["s2"]]
             ret = f" -> {type_of(n['s'], 2)}" if typed and n["s2"] != "init" and (n.get("_id", 0) % 2) else ""
-            self.block(n["kids"][-1], f"{head}{n['s']}({params}){ret}")
+            self.block(n["kids"][-1], f"{head}{n['s']}({params}){ret}", implicit=self.layout == "alt" and n["s2"] != "init")
             self.nl()
         elif k == "class":
             sup = ""
